@@ -76,6 +76,15 @@ class SymT(torch.Tensor):
         out = func(*tree_map(un, args), **tree_map(un, kwargs))
         name = str(func)
         OPS_SEEN.add(name)
+        ip = INPLACE.get(name)
+        if ip is not None:
+            target = args[0]
+            if not isinstance(target, SymT):
+                raise Unsupported(f"in-place {name} on a plain tensor with symbolic operand")
+            sy_ = lambda x: (x.sym if isinstance(x, SymT) else (const_array(x) if isinstance(x, torch.Tensor) else x))
+            new = ip(*tree_map(sy_, args), **tree_map(sy_, kwargs))
+            target.sym = np.broadcast_to(_arr(new), target.sym.shape).copy()
+            return target
         h = HANDLERS.get(name)
         if h is None:
             raise Unsupported(f"no symbolic handler for {name}")
@@ -561,9 +570,16 @@ def _symsize(a, d):
     return a.shape[d]
 
 
-# in-place ops on a SymT would need storage aliasing semantics that the wrapper does not model
-@handler('aten.mul_.Tensor', 'aten.add_.Tensor', 'aten.sub_.Tensor', 'aten.div_.Tensor', 'aten.zero_.default',
-         'aten.fill_.Scalar', 'aten.addcmul_.default')
+# in-place ops: the payload of the target object is replaced (no storage aliasing between views is modelled; the
+# per-run validation of outputs against the real kernels exposes any case where that matters)
+INPLACE = {
+    'aten.add_.Tensor': _add, 'aten.sub_.Tensor': _sub, 'aten.mul_.Tensor': _mul, 'aten.div_.Tensor': _div,
+    'aten.add_.Scalar': _add, 'aten.sub_.Scalar': _sub, 'aten.mul_.Scalar': _mul, 'aten.div_.Scalar': _div,
+    'aten.neg_.default': _neg,
+}
+
+
+@handler('aten.zero_.default', 'aten.fill_.Scalar', 'aten.addcmul_.default')
 def _inplace(*a, **k):
     raise Unsupported('in-place op on symbolic tensor')
 
